@@ -260,8 +260,11 @@ def length_of(spec, env):
     return int(f)
 
 
-def decode_text(raw: bytes, charset):
+def decode_text(raw: bytes, charset, byte_order=None):
     codec = PY_CODEC.get(charset)
+    if codec is None and charset in ("UTF-16", "UTF-32") and byte_order in (ir.MSB, ir.LSB):
+        # generic multi-byte charset: the declared byte order says how the code units are stored
+        codec = charset.lower() + ("-be" if byte_order == ir.MSB else "-le")
     if codec is None:
         raise DontCare()
     try:
@@ -283,7 +286,7 @@ def string_value(enc: ir.StrEnc, fb: str):
             raise ModelError("string-length-not-multiple-of-8", str(n))
         if ls + n > L:
             raise DontCare()    # text would run into the padding / past the buffer: not pinned down
-        return decode_text(bits.bits_to_bytes_left_padded(fb[ls:ls + n]) if n else b"", enc.charset), raw
+        return decode_text(bits.bits_to_bytes_left_padded(fb[ls:ls + n]) if n else b"", enc.charset, enc.byte_order), raw
     if enc.termination is not None:
         term = bytes.fromhex(enc.termination)
         unit = CODE_UNIT.get(enc.charset, 1)
@@ -296,8 +299,8 @@ def string_value(enc: ir.StrEnc, fb: str):
             raise ModelError("terminator-absent", "")
         if L % 8 and idx + len(term) > L // 8:
             raise DontCare()    # the match involves padding bits
-        return decode_text(raw[:idx], enc.charset), raw
-    return decode_text(raw, enc.charset), raw
+        return decode_text(raw[:idx], enc.charset, enc.byte_order), raw
+    return decode_text(raw, enc.charset, enc.byte_order), raw
 
 
 def decode_param(t: ir.PType, allbits: str, pos: int, env):
